@@ -15,12 +15,19 @@ impl Prop for P {
         "random histories on a pool of real headers (main chain + forks + same-height siblings + unvalidated mutants with a repeated hash / foreign validator set / altered height): valid placements (empty store, append head, new head with gap, extend left/right, gap fills), invalid batches (overlap, no neighbour, hole, reversed, substituted/repeated header, mutants, failing seams), removals (tail/middle/head/absent), sampling marks and metadata updates with repeated CIDs, all Store queries incl. get_range with every bound form; the SAME line is run on InMemoryStore and RedbStore::in_memory() and the full observable state of both is dumped after every mutating op. Non-trivial = every op except reset/dump; distinct = distinct (op, result) lines."
     }
     fn gen_ops(&mut self, rng: &mut Rng, tier: Tier, out: &mut Emitter) {
-        let cfg = if tier == Tier::Thorough {
-            GenCfg { histories: 150, max_ops: 300, max_chain: 200, max_batch: 64, invalid_pct: 35, remove_w: 35, query_w: 25, sample_w: 30 }
-        } else {
-            GenCfg { histories: 40, max_ops: 60, max_chain: 30, max_batch: 8, invalid_pct: 35, remove_w: 35, query_w: 25, sample_w: 30 }
+        let mk = |histories, max_ops, max_chain, max_batch| GenCfg {
+            histories, max_ops, max_chain, max_batch,
+            dup_pct: 15, invalid_pct: 35, remove_w: 35, query_w: 25, sample_w: 30,
         };
-        gen_all(&mut self.0, rng, &cfg, out);
+        if tier == Tier::Thorough {
+            // many medium histories, plus a few at the scale the property names
+            // (chains of ~200 headers, a few hundred operations)
+            gen_all(&mut self.0, rng, &mk(80, 250, 100, 32), out);
+            gen_all(&mut self.0, rng, &mk(6, 400, 200, 64), out);
+        } else {
+            gen_all(&mut self.0, rng, &mk(30, 50, 20, 8), out);
+            gen_all(&mut self.0, rng, &mk(1, 120, 60, 16), out);
+        }
     }
     fn run(&mut self, line: &str) -> String {
         self.0.run(line)
